@@ -52,6 +52,15 @@ func genObjCases(r *common.Rng) []objCase {
 	cs = append(cs, objCase{name: "flavor-instance", prereq: []string{fb, fk},
 		own:    []string{fmt.Sprintf("(defparameter *obj* (make-instance 'fbase :size %d))", n(100, 200)), "(send *obj* :set-color \"blue\")"},
 		object: "*obj*", bind: true, probes: []string{"(send *obj* :size)", "(send *obj* :color)"}})
+	// instances whose slots hold lists, symbols, tables and other instances (repo_fixes/C19-9)
+	cs = append(cs, objCase{name: "flavor-instance-holding-data", prereq: []string{fb, fk},
+		own: []string{"(defparameter *obj* (make-instance 'fbase :size '(1 (2 \"two\") x)))",
+			"(send *obj* :set-color (make-instance 'fbase :size 'sym :color (let ((table (make-hash-table))) (setf (gethash 'k table) '(a b)) table)))"},
+		object: "*obj*", bind: true,
+		probes: []string{"(send *obj* :size)", "(send (send *obj* :color) :size)", "(gethash 'k (send (send *obj* :color) :color))"}})
+	cs = append(cs, objCase{name: "class-instance-holding-data", prereq: []string{base, kid},
+		own:    []string{"(defparameter *obj* (make-instance 'ckid))", "(setf (slot-value *obj* 'k3) '(p (q 2) \"r\"))", "(setf (slot-value *obj* 'k2) 'sym)"},
+		object: "*obj*", bind: true, probes: []string{"(slot-value *obj* 'k3)", "(slot-value *obj* 'k2)", "(slot-value *obj* 'k1)"}})
 	// a package
 	pk := fmt.Sprintf("(defpackage \"pkq\" (:use \"cl\" \"cl-user\") (:nicknames \"pkq-n%d\" \"pkq-m\") (:export \"fq\" \"gq\"))", n(1, 9))
 	cs = append(cs, objCase{name: "package", own: []string{pk}, object: "(find-package \"pkq\")",
